@@ -31,7 +31,11 @@ type hEnv struct {
 // newHEnv: one HTLT asset with symbolic (validated) parameters and a symbolic supply record
 // satisfying the limit invariants H6: outgoing <= current, current+incoming <= limit,
 // timeLimitedCurrent <= timeBasedLimit when time-limited.
-func newHEnv() *hEnv {
+func newHEnv() *hEnv { return newHEnvLimits(true) }
+
+// newHEnvLimits(false): the supply limits bear no relation to the recorded supply - the authority may
+// lower a limit below what already circulates (C16: no accepted parameter set may make a handler abort).
+func newHEnvLimits(limitInvariant bool) *hEnv {
 	e := &hEnv{vEnv: newVEnv(types.StoreKey, hHeight, hDenom, hOther)}
 	e.bank.modules[types.ModuleName] = []string{authtypes.Minter, authtypes.Burner}
 	e.deputy, e.user, e.other = vAddr(5), vAddr(1), vAddr(2)
@@ -53,7 +57,9 @@ func newHEnv() *hEnv {
 	e.incoming, e.outgoing, e.current = verifIntIn("incoming", zero, w), verifIntIn("outgoing", zero, w), verifIntIn("current", zero, w)
 	e.tlCurrent = verifIntIn("tlCurrent", zero, w)
 	verifAssume(e.outgoing.BigInt().Cmp(e.current.BigInt()) <= 0)
-	verifAssume(verifAdd(e.current.BigInt(), e.incoming.BigInt()).Cmp(e.asset.SupplyLimit.Limit.BigInt()) <= 0)
+	if limitInvariant {
+		verifAssume(verifAdd(e.current.BigInt(), e.incoming.BigInt()).Cmp(e.asset.SupplyLimit.Limit.BigInt()) <= 0)
+	}
 	c := func(a sdkmath.Int) sdk.Coin { return sdk.Coin{Denom: hDenom, Amount: a} }
 	e.k.SetAssetSupply(e.ctx, types.NewAssetSupply(c(e.incoming), c(e.outgoing), c(e.current), c(e.tlCurrent), 0), hDenom)
 	// bank: the asset's circulating supply is at least `current`; the escrow holds at least the open outgoing amount
